@@ -158,6 +158,8 @@ pub enum LogKind {
     Emit { key: String, inv: usize, id: String },
     /// The harness parser delivered its i-th item.
     ParserDeliver(usize),
+    /// The parser stream was polled again after it had ended.
+    ParserPolledAfterEnd,
 }
 
 #[derive(Clone, Debug)]
